@@ -309,6 +309,9 @@ func runReplay(path string, verbose bool) int {
 	res := core.SafeExec(p, t)
 	if res.V == nil {
 		fmt.Printf("REPLAY-OK property=%s no violation (recorded signature: %q)\n", t.Property, t.Signature)
+		if verbose {
+			fmt.Printf("sample: %s\nprobes: %v faults: %v evals: %d\n", res.Sample, res.Probes, res.Faults, res.Evals)
+		}
 		return exitOK
 	}
 	fmt.Printf("REPLAY-SIGNATURE %s\n", res.V.Sig())
